@@ -265,7 +265,10 @@ fn run(req: &str) -> String {
 // generator
 
 const STYLES: [&str; 6] = ["D", "R", "r", "A", "a", "N"];
-const PREFIXES: [&str; 9] = ["", "A-", "Chapter ", "p.", "§", "Anexo ñ ", "(x)\\", "第", "i"];
+const PREFIXES: [&str; 20] = [
+    "", "A-", "Chapter ", "p.", "§", "Anexo ñ ", "(x)\\", "第", "i", "\r", "a\rb\r\n", "((", "))", ")(", "\\", "#23 ", "<</P>>", "/N%c\t", "\u{1F600}",
+    "A very long prefix that goes on and on, with (nested (parentheses)) and a trailing backslash \\",
+];
 /// numeric-portion values worth hitting in every style
 const NUMS: [u32; 40] = [
     0, 1, 2, 3, 4, 5, 8, 9, 10, 14, 19, 25, 26, 27, 28, 40, 49, 51, 52, 53, 54, 78, 79, 90, 99, 400, 499, 676, 677,
